@@ -30,6 +30,7 @@ func runC03(c *core.Ctx) {
 	c.Rule("C03.roles", "A7: WindowNode.newWindow passes (Period, Every, AlignFlag, FillPeriodFlag) resp. (PeriodCount, EveryCount, FillPeriodFlag) to the constructor parameters of the same role")
 	c.Rule("C03.confine", "A6: windowTimeBuffer.{window,start,stop,size} are assigned only in insert and purge; windowByCount.{buf,start,stop,size,count,nextEmit} only in its Point (and the constructor literal); both points() build their result with make (a fresh slice)")
 	c.Rule("C03.grow", "A3: when the time ring grows while wrapped, the older segment window[start:] is copied to the front of the new array and the newer segment window[:stop] behind it (time order is what purge relies on)")
+	c.Rule("C03.empty", "A1: the time ring has one representation of the empty buffer: on every path of insert that finds size == 0 both start and stop are set to 0 before the point is stored (start == stop at another index is what purge and points take for a wrapped, full ring)")
 	c.Rule("C03.copyout", "A4 ownership: the slice of points handed to an emitted window (windowByCount.points, windowTimeBuffer.points) is a fresh make(…) on every path that returns points, never a sub-slice of the ring: the ring is overwritten by later points while the emitted batch may still be read downstream")
 	c.Rule("C03.count", "A1: windowByCount.Point stores the point at stop, advances stop modulo period, drops the oldest (advances start) iff the ring was full else grows size, counts the point, and emits iff count == nextEmit, advancing nextEmit by every exactly then")
 
@@ -45,6 +46,7 @@ func runC03(c *core.Ctx) {
 	c03Grow(c, root)
 	c03Count(c, root)
 	c03CopyOut(c, root)
+	c03Empty(c, root)
 }
 
 func c03Skeleton(c *core.Ctx, root *packages.Package) {
@@ -481,5 +483,79 @@ func c03CopyOut(c *core.Ctx, root *packages.Package) {
 		} else if good {
 			c.Fail("C03.copyout", recv+".points", fn.Decl.Pos(), "no path returns points")
 		}
+	}
+}
+
+func c03Empty(c *core.Ctx, root *packages.Package) {
+	info := root.TypesInfo
+	fn := c.Need("C03.empty", "", "windowTimeBuffer", "insert")
+	if fn == nil {
+		return
+	}
+	rv := an.RecvVarName(fn.Decl)
+	eng := &an.Engine{Prog: c.P, Alias: map[string]string{rv: "b"},
+		TrackStore: func(lhs ast.Expr, key string) string {
+			for _, f := range []string{"start", "stop"} {
+				if an.FieldSel(info, lhs, "windowTimeBuffer", f) {
+					return f
+				}
+			}
+			if ix, ok := ast.Unparen(lhs).(*ast.IndexExpr); ok && an.FieldSel(info, ix.X, "windowTimeBuffer", "window") {
+				return "put"
+			}
+			return ""
+		},
+		TrackCall: func(call *ast.CallExpr, callee *types.Func) string {
+			if core.IsBuiltin(info, call, "append") {
+				return "put"
+			}
+			return ""
+		},
+		Classify: func(a an.Atom) (string, bool) {
+			if a.Key == "b.size == 0" {
+				return "empty", false
+			}
+			return "", false
+		}}
+	paths, err := eng.Run(fn)
+	if err != nil {
+		c.Undecided("C03.empty", "windowTimeBuffer.insert", fn.Decl.Pos(), "%v", err)
+		return
+	}
+	good, n := len(paths) > 0, 0
+	for _, p := range paths {
+		v, dec := p.Assign()["empty"]
+		if !dec {
+			good = false
+			c.Fail("C03.empty", "windowTimeBuffer.insert#normalise", p.RetPos, "insert does not look at whether the buffer is empty: after a purge that removed everything start == stop at an arbitrary index, the next insert can leave start beyond stop, and the following purge examines the wrong slots — windows then contain points older than their period (every > period)")
+			continue
+		}
+		if !v {
+			continue
+		}
+		n++
+		// before the point is stored: start=0 and stop=0
+		put := p.Index("put")
+		s0, t0 := false, false
+		for i, e := range p.Events {
+			if put >= 0 && i > put {
+				break
+			}
+			if e.Kind == "store" && e.Args[0] == "0" {
+				switch e.Name {
+				case "start":
+					s0 = true
+				case "stop":
+					t0 = true
+				}
+			}
+		}
+		if !s0 || !t0 {
+			good = false
+			c.Fail("C03.empty", "windowTimeBuffer.insert#normalise", p.RetPos, "inserting into an empty buffer does not reset start and stop to 0 first (start reset %v, stop reset %v): start == stop at another index is taken for a wrapped ring by purge", s0, t0)
+		}
+	}
+	if good && n > 0 {
+		c.Ok("C03.empty", "windowTimeBuffer.insert#normalise")
 	}
 }
